@@ -6,4 +6,5 @@ func init() {
 	register("cms-replay", cmsrt.Replay)
 	register("cms-own", cmsrt.Own)
 	register("cms-pss", cmsrt.Pss)
+	register("ts-legacy", cmsrt.Legacy)
 }
